@@ -75,7 +75,8 @@ func Start(mode Mode, logPath string, env []string, bin string, args ...string) 
 	sa = append(sa, bin)
 	sa = append(sa, args...)
 	cmd := exec.Command("strace", sa...)
-	cmd.Env = append(os.Environ(), env...)
+	// one P and no preemption signals: an order of magnitude fewer system calls for strace to stop at
+	cmd.Env = append(append(os.Environ(), "GOMAXPROCS=1", "GODEBUG=asyncpreemptoff=1"), env...)
 	cmd.Stderr = os.Stderr
 	stdin, err := cmd.StdinPipe()
 	if err != nil {
